@@ -126,7 +126,9 @@ class Tr:
             if ck in ("IntegralToBoolean", "PointerToBoolean"):
                 return "(Cmp Ne %s (Lit 0))" % self.ex(ks[-1])
             return "(Unk %s)" % qstr("castKind " + str(ck))
-        if k in ("DeclRefExpr", "MemberExpr", "ArraySubscriptExpr", "CXXThisExpr"):
+        if k == "ArraySubscriptExpr":
+            return "(Call \"[]\" \"\" [%s; %s])" % (self.ex(ks[0]), self.ex(ks[1]))
+        if k in ("DeclRefExpr", "MemberExpr", "CXXThisExpr"):
             p = self.path(n)
             return "(Var %s)" % qstr(p) if p else "(Unk %s)" % qstr(k)
         if k == "UnaryOperator":
@@ -366,6 +368,13 @@ def main(argv):
         dn = dump(repo, inc, inst, "parallel_for_internal", os.path.join(work, "inst_internal.json"), ["-DRKCOMMON_TASKING_INTERNAL"])
     except Exception as e:      # noqa
         notes.append(str(e)[:500]); dn = []
+    # parallel_foreach: iterator overload (unsigned char *) and container overload (unsigned char[8])
+    try:
+        de = dump(repo, inc, inst, "parallel_foreach", os.path.join(work, "inst_foreach.json"), [])
+    except Exception as e:      # noqa
+        notes.append(str(e)[:500]); de = []
+    emit("src_foreach_iter", find_funcs(de, "parallel_foreach", "void (unsigned char *, unsigned char *,", "8rkcommon"))
+    emit("src_foreach_container", find_funcs(de, "parallel_foreach", "void (unsigned char (&)[8],", "8rkcommon"))
     emit("src_parallel_for_internal", find_funcs(dn, "parallel_for_internal", None, "8rkcommon"))
     emit("src_LocalTask_ExecuteRange", find_funcs(dn, "ExecuteRange", None, "8rkcommon"))
     # the constructor LocalTask(int nunTasks, ..) : Task(nunTasks): parameter type and the conversion to uint32_t
